@@ -14,7 +14,7 @@ use apache_avro::reader::datum::GenericDatumReader;
 use apache_avro::types::Value;
 use apache_avro::writer::datum::GenericDatumWriter;
 use apache_avro::{Codec, GenericSingleObjectReader, Reader};
-use avro_verif_harness::dynde::Dyn;
+use avro_verif_harness::dynde::{Dyn, DynSkip};
 use avro_verif_harness::generate::Rng;
 use avro_verif_harness::term::*;
 use avro_verif_harness::{Args, guarded, open_out, parse_args, quiet_panics, read_lines};
@@ -114,7 +114,7 @@ fn start_watchdog(limit_ms: u64) {
 // ---------------------------------------------------------------------------------------------
 
 fn no_val() -> J {
-    json!({"ok":false,"panic":false,"v":none_term(),"consumed":0,"err":"","ekind":""})
+    json!({"ok":false,"panic":false,"v":none_term(),"consumed":0,"err":"","ekind":"","ig":[]})
 }
 
 /// kind of a reported error, projected from its text: "alloc" = the configured allocation limit was
@@ -176,14 +176,14 @@ fn run_datum(schema: &Schema, bytes: &[u8]) -> J {
     }
 }
 
-/// schema-aware deserializer into the dynamic target
-fn run_deser(schema: &Schema, bytes: &[u8]) -> J {
+/// schema-aware deserializer into one target type: outcome, bytes consumed, error kind
+fn deser_into<T: serde::de::DeserializeOwned>(schema: &Schema, bytes: &[u8]) -> J {
     let all = bytes.to_vec();
     let r = guarded(std::panic::AssertUnwindSafe(|| {
         let r = GenericDatumReader::builder(schema).build().map_err(|e| e.to_string())?;
         let mut slice: &[u8] = &all;
         m_begin();
-        let d: Result<Dyn, _> = r.read_deser(&mut slice);
+        let d: Result<T, _> = r.read_deser(&mut slice);
         m_end();
         let _d = d.map_err(|e| e.to_string())?;
         Ok::<usize, String>(all.len() - slice.len())
@@ -194,6 +194,18 @@ fn run_deser(schema: &Schema, bytes: &[u8]) -> J {
         Ok(Err(e)) => json!({"ok":false,"panic":false,"consumed":0,"ekind":ekind(&e),"err":e}),
         Err(p) => json!({"ok":false,"panic":true,"consumed":0,"err":p,"ekind":"panic"}),
     }
+}
+
+/// schema-aware deserializer into the dynamic target, and into targets that ignore part / all of the datum
+/// (`deserialize_ignored_any`: what a Rust type lacking a field of the schema asks for)
+fn run_deser(schema: &Schema, bytes: &[u8]) -> J {
+    let mut j = deser_into::<Dyn>(schema, bytes);
+    j["ig"] = J::Array(vec![
+        deser_into::<DynSkip<0>>(schema, bytes),
+        deser_into::<DynSkip<1>>(schema, bytes),
+        deser_into::<serde::de::IgnoredAny>(schema, bytes),
+    ]);
+    j
 }
 
 fn run_container(bytes: &[u8]) -> J {
